@@ -55,7 +55,7 @@ Derived(xo, yo, so, ko, no, addign) ==
               ELSE IF so = "super" THEN [start |-> Rule(Seq2(<<"super", "start">>, Opt(Str(<<33>>))))] ELSE <<>>
         r4 == IF ko = "rule" THEN [K |-> Rule(Seq2(Ref("X"), Ref("X")))] ELSE <<>>
         \* (a new rule of the derived level that refers to inherited rules AND to the inherited class K by name)
-        r5 == IF no = "new" THEN [N |-> Rule(Ch2(Ref("Deep"), Seq3(Ref("X"), Ref("Z"), Opt(Ref("K")))))]
+        r5 == IF no = "new" THEN [N |-> Rule(<<"choice", <<Ref("Deep"), Seq3(Ref("X"), Ref("Z"), Opt(Ref("K"))), Seq2(Str(<<36>>), Ref("P"))>>>>)]
               ELSE IF no = "tsuper"
               THEN [T |-> RuleP(<<"p">>, Seq2(Str(<<36>>), <<"scall", "T", <<Pos(Ref("p"))>>>>)),
                     \* a rule of this level that goes through the inherited U (and so through T and X, late-bound)
@@ -121,6 +121,7 @@ Chain3 == <<Chain2[1], Chain[2]>>
 Alpha == IF ig = "none" THEN <<a, b, c3>> ELSE IF ig \in {"both", "bothanon"} THEN <<a, b, c3, sp, dash>> ELSE <<a, b, c3, sp>>
 Texts == TextSeqUpTo(Alpha, IF Tier = "quick" \/ ig # "none" THEN 3 ELSE 4)     \* (length 4 over 5 letters made the thorough instance run for an hour)
          \o << <<a, b, b, 33>>, <<a, c3, b, b>>, <<b, b, a, c3>>, <<a, c3, b, 33>>, <<a, a, b, a>>, <<c3, c3, a>>,
+               <<36, a>>, <<36, c3, a>>, <<36, c3, c3, a>>, <<36, 33>>,
                <<35, a, 33>>, <<35, 36, a, 33>>, <<35, 36, 36, a>>, <<35, c3>>, <<35, 36, c3, 33>>, <<35, 36, a, c3, 33>>,
                <<35, 36, 36, a, c3>>, <<37, a>>, <<37, c3>>, <<37, a, c3, 37>>, <<37, a, 37>>, <<37, c3, 37, a>> >>
          \o (IF ig = "none" THEN <<>> ELSE << <<sp, a, sp, b, sp, b>>, <<a, sp, c3, sp, b>>, <<sp, sp, a, sp, a>> >>)
